@@ -315,6 +315,7 @@ class TFLiteSupportedOperators:
         # Pad specific checks:
         self.specific_constraints[Op.Pad].append(TFLiteSupportedOperators.constraint_pad_shape)
         #self.specific_constraints[Op.Pad].append(TFLiteSupportedOperators.constraint_padding_dimensions)
+        self.specific_constraints[Op.Pad].append(TFLiteSupportedOperators.constraint_padding_not_mixed)
         self.specific_constraints[Op.Pad].append(TFLiteSupportedOperators.constraint_pad_type)
 
         # Mean specific checks:
@@ -828,6 +829,15 @@ class TFLiteSupportedOperators:
         if valid and len(pad_tensor) > 3:
             valid = sum(pad_tensor[0, :]) == 0
         return valid, f"First dimension padding: {pad_tensor[0,:]}, last dimension padding: {pad_tensor[-1,:]}"
+
+    @staticmethod
+    def constraint_padding_not_mixed(op):
+        "Padding of the first or last dimension cannot be combined with padding of width or height"
+        pad_tensor = op.inputs[1].values
+        outer = sum(pad_tensor[-1, :]) != 0 or (len(pad_tensor) > 3 and sum(pad_tensor[0, :]) != 0)
+        inner = sum(pad_tensor[-3:-1, :].flatten()) != 0
+        valid = not (outer and inner)
+        return valid, f"The pad tensor is: {pad_tensor.tolist()}"
 
     @staticmethod
     def constraint_stridedslice_stride_values(op):
